@@ -120,6 +120,22 @@ impl BlkFile {
     }
     pub open spec fn is_open(&self) -> bool { self.reader is Some }
 
+//@extract fn src/blockchain/parser/blkfile.rs :: impl BlkFile :: new
+//@vis pub
+//@spec
+        ensures
+            r.path == path, r.xor_key == xor_key,
+            //# C17:a_discovered_file_is_not_opened
+            !r.is_open(),
+//@end
+
+    /// directory scan (fs::read_dir, symlink resolution, file-name parsing): trusted. ASSUMED contract: every entry is built
+    /// with BlkFile::new (above: reader None) and carries the key read from xor.dat, which is non-empty when present
+    #[verifier::external_body]
+    pub fn from_path(path: &PathBuf) -> (r: Result<HashMap<u64, BlkFile>>)
+        ensures r is Ok ==> forall|f: u64| r->Ok_0.view().contains_key(f) ==> !(#[trigger] r->Ok_0.view()[f]).is_open() && r->Ok_0.view()[f].key_ok(),
+    { unimplemented!() }
+
 //@extract fn src/blockchain/parser/blkfile.rs :: impl BlkFile :: open
 //@spec
         requires old(self).wf(),
@@ -176,9 +192,8 @@ impl BlkFile {
 //@end
 
 impl ChainIndex {
-    /// established by ChainIndex::new (HashMap iteration: outside both verifiers -- ASSUMED):
-    /// every indexed record's file has a per-file maximum height, and that maximum is at least
-    /// the record's height
+    /// established by ChainIndex::new (proved in unit chainindex, clause C17:per_file_maximum_heights):
+    /// every indexed record's file has a per-file maximum height
     pub open spec fn wf(&self) -> bool {
         forall|h: u64| self.block_index.view().contains_key(h) ==>
             self.max_height_blk_index.view().contains_key((#[trigger] self.block_index.view()[h]).blk_index)
@@ -223,6 +238,15 @@ impl Block {
 }
 
 // ---- chain.rs --------------------------------------------------------------------------------------------------
+/// ParserOptions: the fields ChainStorage::new reads (the real struct also holds the callback, the range and the log level)
+pub struct ParserOptions { pub blockchain_dir: PathBuf, pub coin: CoinType, pub verify: bool }
+impl PathBuf { #[verifier::external_body] pub fn as_path(&self) -> (r: &PathBuf) ensures r == self { unimplemented!() } }
+impl Clone for CoinType { #[verifier::external_body] fn clone(&self) -> (r: Self) ensures r == *self { unimplemented!() } }
+impl ChainIndex {
+    /// contract proved on the real body in unit chainindex
+    #[verifier::external_body]
+    pub fn new(options: &ParserOptions) -> (r: Result<ChainIndex>) { unimplemented!() }
+}
 //@extract type src/blockchain/parser/chain.rs :: struct ChainStorage
 //@end
 
@@ -243,10 +267,22 @@ impl ChainStorage {
     }
     pub open spec fn wf(&self) -> bool { self.chain_index.wf() && self.files_wf() && self.offsets_wf() }
 
+//@extract fn src/blockchain/parser/chain.rs :: impl ChainStorage :: new
+//@spec
+        ensures
+            r is Ok ==> {
+                //# C12:coin_and_verify_flag_are_the_ones_selected_on_the_command_line
+                &&& r->Ok_0.coin == options.coin && r->Ok_0.verify == options.verify
+                //# C17:no_blk_file_is_open_before_the_first_block
+                &&& forall|f: u64| r->Ok_0.blk_files.view().contains_key(f) ==> !(#[trigger] r->Ok_0.blk_files.view()[f]).is_open()
+                &&& r->Ok_0.files_wf()
+            },
+//@end
+
 //@extract fn src/blockchain/parser/chain.rs :: impl ChainStorage :: verify
 //@spec
         requires
-            //# pre:predecessor_record_retained   (ChainIndex::new keeps start-1 ..= max_height: ASSUMED)
+            //# pre:predecessor_record_retained   (ChainIndex::new keeps start-1 ..= max_height: proved in unit chainindex)
             height > 0 ==> self.chain_index.block_index.view().contains_key((height - 1) as u64),
         ensures
             //# C09:verify_accepts_exactly_consistent_blocks
